@@ -4,8 +4,10 @@ package llrp
 
 import (
 	"bytes"
+	"context"
 	"encoding/hex"
 	"encoding/json"
+	"errors"
 	"fmt"
 	"io"
 	"net"
@@ -14,6 +16,7 @@ import (
 	"strconv"
 	"strings"
 	"sync"
+	"sync/atomic"
 	"testing"
 	"time"
 )
@@ -364,6 +367,469 @@ func c19BatchDec(dst []byte, par int, items string) []byte {
 	return dst
 }
 
+// ---- clients in every connection state.  A real Client is taken through a connection history
+// over c19Link (both directions in memory, frames built and parsed here, not by the library) and
+// then (stl) offered headers through its read side, or (std) asked to readHeader directly while
+// its read side stays parked in Read.
+
+type c19Seen struct {
+	h   Header
+	ver VersionNum
+}
+
+type c19Frame struct {
+	ver     uint8
+	typ     uint16
+	id      uint32
+	payload []byte
+}
+
+// c19Link is the net.Conn given to Connect, and the record of what the Client did; everything is
+// guarded by mu, every change is broadcast on cond.
+type c19Link struct {
+	mu           sync.Mutex
+	cond         *sync.Cond
+	in           []byte        // sent by the peer, not yet read by the client
+	eof          bool          // the peer has closed
+	waiting      int           // Reads of the client's read side parked for data
+	direct       *bytes.Reader // while set, Read calls are served from here (a parked Read stays parked)
+	directOut    []byte        // ... and Write calls are collected here
+	failDeadline bool          // SetReadDeadline fails
+	out          []byte        // written by the client, not yet parsed into frames
+	frames       []c19Frame    // complete frames the client wrote
+	logs         []c19Seen     // ClientLogger.ReceivedMsg calls
+	offered      []Header      // headers of the messages offered to the handler
+	started      bool          // Connect has been called
+	connDone     bool          // Connect has returned
+	ready        bool          // c.ready is closed
+	returned     int           // SendMessage / Shutdown calls that have returned
+}
+
+func (l *c19Link) Read(p []byte) (int, error) {
+	l.mu.Lock()
+	defer l.mu.Unlock()
+	if l.direct != nil {
+		return l.direct.Read(p)
+	}
+	for len(l.in) == 0 && !l.eof {
+		l.waiting++
+		l.cond.Broadcast()
+		l.cond.Wait()
+		l.waiting--
+	}
+	if len(l.in) == 0 {
+		return 0, io.EOF
+	}
+	n := copy(p, l.in)
+	l.in = l.in[n:]
+	l.cond.Broadcast()
+	return n, nil
+}
+
+func (l *c19Link) Write(p []byte) (int, error) {
+	l.mu.Lock()
+	defer l.mu.Unlock()
+	if l.direct != nil {
+		l.directOut = append(l.directOut, p...)
+		return len(p), nil
+	}
+	l.out = append(l.out, p...)
+	for len(l.out) >= 10 {
+		n := int(uint32(l.out[2])<<24 | uint32(l.out[3])<<16 | uint32(l.out[4])<<8 | uint32(l.out[5]))
+		if n < 10 || len(l.out) < n {
+			break
+		}
+		w := uint16(l.out[0])<<8 | uint16(l.out[1])
+		l.frames = append(l.frames, c19Frame{
+			ver: uint8(w>>10) & 7, typ: w & 0x3ff,
+			id:      uint32(l.out[6])<<24 | uint32(l.out[7])<<16 | uint32(l.out[8])<<8 | uint32(l.out[9]),
+			payload: append([]byte(nil), l.out[10:n]...)})
+		l.out = l.out[n:]
+	}
+	l.cond.Broadcast()
+	return len(p), nil
+}
+
+func (l *c19Link) Close() error                     { return nil }
+func (l *c19Link) LocalAddr() net.Addr              { return c19Addr{} }
+func (l *c19Link) RemoteAddr() net.Addr             { return c19Addr{} }
+func (l *c19Link) SetDeadline(time.Time) error      { return nil }
+func (l *c19Link) SetWriteDeadline(time.Time) error { return nil }
+func (l *c19Link) SetReadDeadline(time.Time) error {
+	l.mu.Lock()
+	defer l.mu.Unlock()
+	if l.failDeadline {
+		return errors.New("deadline not supported")
+	}
+	return nil
+}
+
+// the Client's logger and its handler for every message type
+func (l *c19Link) ReceivedMsg(h Header, v VersionNum) {
+	l.mu.Lock()
+	l.logs = append(l.logs, c19Seen{h, v})
+	l.cond.Broadcast()
+	l.mu.Unlock()
+}
+func (l *c19Link) SendingMsg(Header)          {}
+func (l *c19Link) MsgHandled(Header)          {}
+func (l *c19Link) MsgUnhandled(Header)        {}
+func (l *c19Link) HandlerPanic(Header, error) {}
+func (l *c19Link) HandleMessage(_ *Client, m Message) {
+	l.mu.Lock()
+	l.offered = append(l.offered, m.Header)
+	l.cond.Broadcast()
+	l.mu.Unlock()
+}
+
+func (l *c19Link) note(f func()) {
+	l.mu.Lock()
+	f()
+	l.cond.Broadcast()
+	l.mu.Unlock()
+}
+
+// wait blocks until pred (evaluated under mu) holds; false after d.
+func (l *c19Link) wait(d time.Duration, pred func() bool) bool {
+	deadline := time.Now().Add(d)
+	t := time.AfterFunc(d, func() { l.note(func() {}) })
+	defer t.Stop()
+	l.mu.Lock()
+	defer l.mu.Unlock()
+	for !pred() {
+		if !time.Now().Before(deadline) {
+			return false
+		}
+		l.cond.Wait()
+	}
+	return true
+}
+
+// parked (under mu): the client's read side sits in Read and has consumed all that was sent
+func (l *c19Link) parked() bool { return l.waiting > 0 && len(l.in) == 0 && !l.eof }
+
+const c19Patience = 10 * time.Second
+
+// settle waits until the read side is parked or Connect has returned; reports whether a read
+// side is there to take the next header.
+func (l *c19Link) settle() bool {
+	l.mu.Lock()
+	started := l.started
+	l.mu.Unlock()
+	if !started {
+		return false
+	}
+	l.wait(c19Patience, func() bool { return l.parked() || l.connDone })
+	l.mu.Lock()
+	done, p := l.connDone, l.parked()
+	l.mu.Unlock()
+	if done && !p {
+		// Connect has returned; a read loop it did not wait for would show up parked shortly
+		l.wait(2*time.Millisecond, func() bool { return l.parked() })
+		l.mu.Lock()
+		p = l.parked()
+		l.mu.Unlock()
+	}
+	return p
+}
+
+func c19Wire(ver uint8, typ uint16, id uint32, payload []byte) []byte {
+	b := make([]byte, 10, 10+len(payload))
+	w := uint16(ver&7)<<10 | typ&0x3ff
+	n := uint32(10 + len(payload))
+	b[0], b[1] = byte(w>>8), byte(w)
+	b[2], b[3], b[4], b[5] = byte(n>>24), byte(n>>16), byte(n>>8), byte(n)
+	b[6], b[7], b[8], b[9] = byte(id>>24), byte(id>>16), byte(id>>8), byte(id)
+	return append(b, payload...)
+}
+
+var (
+	// ReaderEventNotificationData{UTCTimestamp, ConnectionAttemptEvent{Success}}
+	c19ConnEvent = []byte{0x00, 0xF6, 0x00, 0x16, 0x00, 0x80, 0x00, 0x0C, 0, 0, 0, 0, 0, 0, 0, 1, 0x01, 0x00, 0x00, 0x06, 0x00, 0x00}
+	c19StatusOK  = []byte{0x01, 0x1F, 0x00, 0x08, 0x00, 0x00, 0x00, 0x00}
+	c19StatusVer = []byte{0x01, 0x1F, 0x00, 0x08, 0x00, 110, 0x00, 0x00} // M_UnsupportedVersion
+)
+
+type c19Sess struct {
+	c      *Client
+	l      *c19Link
+	cancel context.CancelFunc
+	ctx    context.Context
+	conn   bool   // Connect was called
+	calls  int    // SendMessage / Shutdown calls started
+	seen   []byte // tokens of what the read side logged for the history's recv events
+}
+
+func (s *c19Sess) send(b []byte) {
+	s.l.note(func() { s.l.in = append(s.l.in, b...) })
+}
+
+// takeFrame removes the oldest frame the client wrote (waiting for one unless alt holds).
+func (s *c19Sess) takeFrame(alt func() bool) (c19Frame, bool) {
+	s.l.wait(c19Patience, func() bool { return len(s.l.frames) > 0 || s.l.connDone || (alt != nil && alt()) })
+	s.l.mu.Lock()
+	defer s.l.mu.Unlock()
+	if len(s.l.frames) == 0 {
+		return c19Frame{}, false
+	}
+	f := s.l.frames[0]
+	s.l.frames = s.l.frames[1:]
+	return f, true
+}
+
+// call runs f (a SendMessage or Shutdown) on its own goroutine; *done is set (under mu) on return.
+func (s *c19Sess) call(f func()) (done *bool) {
+	s.calls++
+	done = new(bool)
+	go func() {
+		f()
+		s.l.note(func() { s.l.returned++; *done = true })
+	}()
+	return done
+}
+
+// offer hands one message (header and whatever payload bytes follow it in b) to the read side and
+// appends what the read side made of the header: "<logged header>[@<version the client held>]",
+// "!h=<header>" appended if the handler was offered a different one, "!nh" if none was offered; "E" if the read side gave up
+// without reporting a header; "T" if nothing happened.
+func (s *c19Sess) offer(dst []byte, b []byte, withVersion bool) []byte {
+	l := s.l
+	l.mu.Lock()
+	n0, m0 := len(l.logs), len(l.offered)
+	l.mu.Unlock()
+	s.send(b)
+	if !l.wait(c19Patience, func() bool { return len(l.logs) > n0 || l.connDone }) {
+		return append(dst, 'T')
+	}
+	l.mu.Lock()
+	if len(l.logs) <= n0 {
+		l.mu.Unlock()
+		return append(dst, 'E')
+	}
+	seen := l.logs[n0]
+	l.mu.Unlock()
+	l.wait(c19Patience, func() bool { return len(l.offered) > m0 || l.connDone || l.parked() })
+	dst = c19Hdr(dst, seen.h, nil)
+	if withVersion {
+		dst = append(dst, '@')
+		dst = strconv.AppendUint(dst, uint64(seen.ver), 10)
+	}
+	l.mu.Lock()
+	if len(l.offered) <= m0 {
+		dst = append(dst, "!nh"...) // reported, but no handler was given the message
+	} else if l.offered[m0] != seen.h {
+		dst = append(dst, "!h="...)
+		dst = c19Hdr(dst, l.offered[m0], nil)
+	}
+	l.mu.Unlock()
+	return dst
+}
+
+// c19Establish makes a client "v<version>[t]" and takes it through the history.
+func c19Establish(cfg, hist string) *c19Sess {
+	l := &c19Link{}
+	l.cond = sync.NewCond(&l.mu)
+	timeout := strings.HasSuffix(cfg, "t")
+	v, _ := strconv.Atoi(strings.TrimSuffix(cfg[1:], "t"))
+	opts := []ClientOpt{WithVersion(VersionNum(v)), WithLogger(l), WithDefaultHandler(l), WithMessageHandler(MsgKeepAlive, l)}
+	if timeout {
+		opts = append(opts, WithTimeout(time.Hour))
+	}
+	s := &c19Sess{c: NewClient(opts...), l: l}
+	s.c.conn = l
+	s.ctx, s.cancel = context.WithCancel(context.Background())
+	if hist == "-" {
+		return s
+	}
+	for _, ev := range strings.Split(hist, ",") {
+		f := strings.Split(ev, ":")
+		switch f[0] {
+		case "conn":
+			s.conn = true
+			l.note(func() { l.started = true })
+			go func() {
+				_ = s.c.Connect(l)
+				l.note(func() { l.connDone = true })
+			}()
+			go func() {
+				<-s.c.ready
+				l.note(func() { l.ready = true })
+			}()
+		case "first":
+			if l.settle() {
+				s.send(c19Wire(1, 63, 1, c19ConnEvent))
+				// a client that negotiates writes GetSupportedVersion next, another is ready
+				l.wait(c19Patience, func() bool { return len(l.frames) > 0 || l.ready || l.connDone })
+			}
+		case "gsv", "gsverr", "spv":
+			want := uint16(46)
+			if f[0] == "spv" {
+				want = 47
+			}
+			l.mu.Lock()
+			pending := len(l.frames) > 0 && l.frames[0].typ == want
+			l.mu.Unlock()
+			if !pending {
+				break
+			}
+			rq, _ := s.takeFrame(nil)
+			switch f[0] {
+			case "gsv":
+				cur, _ := strconv.Atoi(f[1])
+				mx, _ := strconv.Atoi(f[2])
+				s.send(c19Wire(rq.ver, 56, rq.id, append([]byte{byte(cur) << 5, byte(mx) << 5}, c19StatusOK...)))
+			case "gsverr":
+				s.send(c19Wire(rq.ver, 100, rq.id, c19StatusVer))
+			case "spv":
+				s.send(c19Wire(rq.ver, 57, rq.id, c19StatusOK))
+			}
+			l.wait(c19Patience, func() bool { return len(l.frames) > 0 || l.ready || l.connDone })
+		case "xchg":
+			done := s.call(func() { _, _, _ = s.c.SendMessage(s.ctx, MsgGetReaderCapabilities, nil) })
+			if rq, ok := s.takeFrame(func() bool { return *done }); ok {
+				s.send(c19Wire(rq.ver, 11, rq.id, c19StatusOK))
+				l.wait(c19Patience, func() bool { return *done || l.connDone })
+			}
+		case "req":
+			done := s.call(func() { _, _, _ = s.c.SendMessage(s.ctx, MsgGetReaderConfig, nil) })
+			s.takeFrame(func() bool { return *done })
+		case "sentclose":
+			done := s.call(func() { _ = s.c.Shutdown(s.ctx) })
+			s.takeFrame(func() bool { return *done })
+		case "close":
+			_ = s.c.Close()
+		case "fail":
+			if l.settle() {
+				s.send([]byte{0x04, 0x3f, 0, 0, 0, 0, 0, 0, 0, 0})
+				l.wait(c19Patience, func() bool { return l.connDone })
+			}
+		case "eof":
+			if l.settle() {
+				l.note(func() { l.eof = true })
+				l.wait(c19Patience, func() bool { return l.connDone })
+			}
+		case "recv":
+			if l.settle() {
+				b, _ := hex.DecodeString(f[1])
+				if len(s.seen) > 0 {
+					s.seen = append(s.seen, ',')
+				}
+				s.seen = s.offer(s.seen, b, false)
+			}
+		}
+		// the next event meets a client whose read side has taken everything sent so far
+		l.settle()
+	}
+	return s
+}
+
+// end closes the client and the connection and waits for Connect and the calls to return.
+func (s *c19Sess) end() {
+	s.cancel()
+	_ = s.c.Close()
+	s.l.note(func() { s.l.eof = true; s.l.direct = nil })
+	if s.conn {
+		s.l.wait(c19Patience, func() bool { return s.l.connDone && s.l.returned >= s.calls })
+	}
+}
+
+// c19StateLive: "stl <cfg> <hist> <hex;hex;..>"
+func c19StateLive(dst []byte, cfg, hist, items string) []byte {
+	s := c19Establish(cfg, hist)
+	defer func() { s.end() }()
+	dst = append(dst, "h="...)
+	dst = append(dst, s.seen...)
+	fresh := true
+	for _, it := range strings.Split(items, ";") {
+		b, _ := hex.DecodeString(it)
+		if !fresh {
+			// the previous message may have ended the read side, or left it inside a payload
+			s.end()
+			s = c19Establish(cfg, hist)
+		}
+		dst = append(dst, ' ')
+		if !s.l.settle() {
+			dst = append(dst, '-') // nothing reads the connection in this state
+			continue
+		}
+		dst = s.offer(dst, b, true)
+		declared := uint64(0)
+		if len(b) >= 6 {
+			declared = uint64(b[2])<<24 | uint64(b[3])<<16 | uint64(b[4])<<8 | uint64(b[5])
+		}
+		fresh = declared == uint64(len(b)) && s.l.settle()
+	}
+	return dst
+}
+
+// c19StateDirect: "std <cfg> <hist> <dl> <wlo> <whi> <lens> <ids>"
+func c19StateDirect(dst []byte, f []string) []byte {
+	s := c19Establish(f[1], f[2])
+	defer s.end()
+	s.l.settle()
+	wlo, _ := strconv.Atoi(f[4])
+	whi, _ := strconv.Atoi(f[5])
+	lens, ids := c19Csv(f[6]), c19Csv(f[7])
+	rd := bytes.NewReader(nil)
+	s.l.note(func() { s.l.direct = rd; s.l.failDeadline = f[3] != "1" })
+	dst = append(dst, 'v')
+	dst = strconv.AppendUint(dst, uint64(s.c.curVersion()), 10)
+	dst = append(dst, 'c')
+	dst = strconv.AppendUint(dst, uint64(atomic.LoadUint32(&s.c.isClosed)), 10)
+	buf := make([]byte, 10)
+	for w16 := wlo; w16 <= whi; w16++ {
+		for _, l := range lens {
+			for _, id := range ids {
+				buf[0], buf[1] = byte(w16>>8), byte(w16)
+				buf[2], buf[3], buf[4], buf[5] = byte(l>>24), byte(l>>16), byte(l>>8), byte(l)
+				buf[6], buf[7], buf[8], buf[9] = byte(id>>24), byte(id>>16), byte(id>>8), byte(id)
+				s.l.mu.Lock()
+				rd.Reset(buf)
+				s.l.mu.Unlock()
+				h, err := s.c.readHeader()
+				dst = append(dst, ' ')
+				dst = c19Hdr(dst, h, err)
+			}
+		}
+	}
+	s.l.note(func() { s.l.direct = nil; s.l.failDeadline = false })
+	return dst
+}
+
+// c19StateWrite: "stw <cfg> <hist> <ver> <tlo> <thi> <lens> <ids>"
+func c19StateWrite(dst []byte, f []string) []byte {
+	s := c19Establish(f[1], f[2])
+	defer s.end()
+	s.l.settle()
+	ver, _ := strconv.Atoi(f[3])
+	tlo, _ := strconv.Atoi(f[4])
+	thi, _ := strconv.Atoi(f[5])
+	lens, ids := c19Csv(f[6]), c19Csv(f[7])
+	s.l.note(func() { s.l.direct = bytes.NewReader(nil) })
+	for typ := tlo; typ <= thi; typ++ {
+		for _, l := range lens {
+			for _, id := range ids {
+				s.l.mu.Lock()
+				s.l.directOut = s.l.directOut[:0]
+				s.l.mu.Unlock()
+				err := s.c.writeHeader(Header{version: VersionNum(ver), typ: MessageType(typ), payloadLen: uint32(l), id: messageID(id)})
+				if len(dst) > 0 {
+					dst = append(dst, ' ')
+				}
+				if err != nil {
+					dst = append(dst, 'E')
+					continue
+				}
+				s.l.mu.Lock()
+				dst = append(dst, hex.EncodeToString(s.l.directOut)...)
+				s.l.mu.Unlock()
+			}
+		}
+	}
+	s.l.note(func() { s.l.direct = nil })
+	return dst
+}
+
 func c19Csv(s string) []uint64 {
 	var out []uint64
 	for _, f := range strings.Split(s, ",") {
@@ -430,6 +896,20 @@ func c19Decode(dst []byte, c *Client, conn *c19Conn, buf []byte) []byte {
 //	                                  item from the kept results ("!in" if the argument changed)
 //	bat dec <par> hex;hex;...         the same for UnmarshalBinary / readHeader (par 0: the caller
 //	                                  reuses one buffer for all calls); raw-style tokens
+//	stl <cfg> <hist> <hex;hex;..>     a Client ("v<version>[t]", t = with a timeout) is taken through the
+//	                                  connection history hist over an in-memory connection ("-" or
+//	                                  conn,first,gsv:<cur>:<max>,gsverr,spv,xchg,req,sentclose,close,fail,
+//	                                  eof,recv:<hex>), then each message is handed to its read side (a
+//	                                  fresh client in the same state whenever the previous message ended
+//	                                  the read side): "h=<headers logged for the recv events>" then per
+//	                                  message "<header logged>@<version held>[!h=<header the handler got>]",
+//	                                  E = read side gave up, - = nothing reads in this state
+//	std <cfg> <hist> <dl> <wlo> <whi> <lens> <ids>   the same client, its read side parked in Read:
+//	                                  "v<version held>c<isClosed>" then readHeader called directly for every
+//	                                  first-two-bytes value in [wlo,whi] x lens x ids (dl 0: the
+//	                                  connection refuses read deadlines)
+//	stw <cfg> <hist> <ver> <tlo> <thi> <lens> <ids>  the same client: writeHeader called directly for
+//	                                  Header{ver, typ in [tlo,thi], payloadLen, id}; the bytes written (hex)
 //	tables                            JSON dump of the message-type functions for all codes
 func TestVerifC19(t *testing.T) {
 	lines, w, done := verifIO(t)
@@ -553,6 +1033,12 @@ func TestVerifC19(t *testing.T) {
 					out = append(out, wh...)
 				}
 			}
+		case "stl":
+			out = c19StateLive(out, f[1], f[2], f[3])
+		case "std":
+			out = c19StateDirect(out, f)
+		case "stw":
+			out = c19StateWrite(out, f)
 		case "tables":
 			out = append(out, c19Tables(t)...)
 		default:
